@@ -322,7 +322,7 @@ class C16(Check):
                 fails.append((i, k, 'implementation ends with `%s` (a parse/serialise/handle operation must terminate without a sanitizer report)' % o[k]))
                 continue
             # error positions lie inside the text
-            outs = [l for l in c if l.split(' ')[0] in ('parse', 'str', 'rt', 'vdump')]
+            outs = [l for l in c if l.split(' ')[0] in ('parse', 'str', 'rt', 'vdump', 'ent')]
             last_str = None
             for k, (opl, line) in enumerate(zip(outs, o)):
                 t = line.split(' ')
@@ -344,6 +344,8 @@ class C16(Check):
 
     def nontrivial(self, case, obs):
         kinds = {l.split(' ')[0] for l in case}
+        if 'ent' in kinds:
+            return any(x.startswith('ent ') and not x.startswith('ent err') for x in obs)
         if 'parse' in kinds:
             big = any(l.startswith('parse ') and len(l) >= 6 + 2 * 8 for l in case)
             return any(x.startswith('ok') for x in obs) or (big and any(x.startswith('err') and not x.startswith('err 1 1 ') for x in obs))
@@ -435,8 +437,90 @@ class C16(Check):
         for _ in range(3000 if th else 500):
             cases.append(variant_history(rng, rng.choice([3, 6, 10, 16])))
         out.append(Stream('handles', cases, note='copy / assign / mutable access / nesting / destruction histories over 6 Variant slots'))
+
+        # 9. directed handle histories: the case splits of the copy-on-write proof (toElement on another type / shared /
+        #    exclusive block, for the slot itself and for a nested content item; self-append; assignment to itself)
+        cases = []
+        mk = [['velem 0 61'], ['vtext 0 61'], ['vnull 0'], ['velem 0 61', 'velem 1 62', 'vchild 0 1'], ['velem 0 61', 'vtext 1 62', 'vchild 0 1']]
+        share = [[], ['vcopy 1 0'], ['vcopy 1 0', 'vcopy 2 1'], ['velem 3 78', 'vchild 3 0'], ['velcopy 4 0'], ['vsub 5 0 0']]
+        act = [['vname 0 7a'], ['vattr 0 6b 76'], ['vchild 0 0'], ['vchild 0 1'], ['vsubmut 0 0 7a'], ['vsettext 0 7a'], ['vassign 0 0'], ['vassign 0 1'],
+               ['vsub 0 0 0'], ['vdel 0'], ['vnull 0'], ['velcopy 0 0'], ['vcopy 0 0'], ['vsubmut 3 0 79'], ['vsub 1 3 0', 'vname 1 77']]
+        for a in mk:
+            for b in share:
+                for c in act:
+                    cases.append(a + b + ['vdump'] + c + ['vdump'] + ['vname 1 71', 'vdump', 'vdel 0', 'vdump'])
+        out.append(Stream('handles_directed', cases, exhaustive=True,
+                          note='every combination of {element, text, null, element with element child, element with text child} x '
+                               '{unshared, copied once/twice, nested in another element, element copy, content item copied out} x 15 writes'))
+
+        # 10. predefined entities and decimal references (spec = XML 1.0 4.6 / ASCII code points), unknown names
+        cases = []
+        for nm in [b'lt', b'gt', b'amp', b'apos', b'quot', b'LT', b'l', b'ltt', b'', b'#', b'nbsp', b'#x41', b'#1', b'#9', b'#10', b'#13', b'#32',
+                   b'#34', b'#38', b'#39', b'#60', b'#62', b'#65', b'#127', b'#128', b'#255', b'#256', b'#0065', b'#65x', b'# 65', b'#+65', b'#-1']:
+            cases.append(['ent ' + H(nm)])
+        out.append(Stream('references', cases, exhaustive=True, note='<a v="&NAME;"/> for the five predefined entities, decimal references, malformed and unknown names'))
+
+        # 11. text whose first non-blank byte starts some other token (look-ahead fails, cursor rewinds), for parse and round trip
+        cases = []
+        firsts = [b'>', b'=', b'"', b"'", b'"x"', b"'x'", b'/', b'/>', b'/ >', b'&', b'&lt;', b'a', b'a=', b'a="', b'-', b'--', b'-->', b'!', b'?', b'?>', b';', b'#']
+        leads = [b'', b' ', b'  ', b'\t', b'\n', b'\r\n', b'\r', b' \n ']
+        for f in firsts:
+            for ld in leads:
+                cases.append(['parse ' + H(b'<a>' + ld + f + b'</a>')])
+                cases.append(['parse ' + H(b'<a><b/>' + ld + f + b'<c/>' + ld + f + b'</a>')])
+                cases.append(['parse ' + H(b'<a><!--c-->' + ld + f + b'<!--d-->' + ld + b'</a>')])
+                cases.append(['open 61', 'text ' + H(ld + f), 'str', 'rt'])
+        out.append(Stream('lookahead', cases, exhaustive=True,
+                          note='text starting (after 8 kinds of white space) with each of 22 byte sequences that begin another token; alone, between elements, next to comments, and serialised'))
+
+        # 12. a NUL inside the buffer: everything behind the first terminator must be ignored
+        cases = []
+        for _ in range(400 if th else 60):
+            g = Gen(rng, maxdepth=2)
+            d = g.document()
+            k = rng.randrange(len(d) + 1)
+            tail = rng.choice([b'', b'>', b'</a>', b'-->', b'"', g.document()])
+            cases.append(['parse ' + H(d[:k]), 'parse ' + H(d[:k] + b'\0' + tail)])
+        out.append(Stream('embedded_nul', cases, note='a document cut at a random offset, and the same bytes followed by NUL + more text: same result'))
         return out
 
 
-C16.level_text = 'TODO'
+C16.level_text = (
+    'Theorems in Coq about an executable model of Xml.cpp / Xml.hpp (cursor = remaining text + offset, line, line start over the byte list '
+    's ++ [0] with checked reads; skipSpace with the comment scanner, readToken, the prolog loop, parseElement / content / parseText with the '
+    'cursor rewind, entity unescape/escape through the tables regenerated from the source on every run, toString; Variant/Element values as heap '
+    'blocks with reference counts): (1) for EVERY byte list the parse terminates with fuel 2|s|+4, never reads from the empty list (nothing '
+    'beyond the terminator) and an error carries the line/column of an offset 0..|s| of the text; (2) the white-space scanner steps over every '
+    'comment, the tokenizer depends on the remaining text only, hence a comment in front of any token yields the same token; a processing '
+    'instruction in front of the root is skipped; (3) unescape (escape v) = v for all NUL-free v, predefined entities and decimal references '
+    'decode as XML says, attribute values and text nodes are read back exactly, and parse (toString e) = e up to recorded positions for EVERY '
+    'tree with well-formed names, NUL-free attribute values, distinct attribute names and non-blank non-adjacent text; (4) for EVERY history of '
+    'handle operations each reference count equals the number of Variant objects pointing to the block and the copy-on-write heap refines a '
+    'value store, so an operation changes its target slot only.  The model is tied to the code by running the extracted model, the extracted '
+    'spec and the ASan/UBSan build of the working tree on the same cases (parse results with positions, error line/column/message, serialised '
+    'bytes, re-parsed trees, every value and every reference count after handle operations).')
+C16.level_note = (
+    'Full for the model. Trusted/modelled: Coq kernel, extraction + OCaml driver, harness, table translator; sscanf("#%u") is modelled as a '
+    'reference decimal scanner (glibc semantics: white space, sign, 64-bit saturation, truncation to 32 bits) and Unicode::toString as the '
+    'UTF-8 encoder - both validated by correspondence only; HashMap<String,String> keeps insertion order and replaces on an equal key '
+    '(modelled, validated by correspondence). Nesting depth: the model needs no bound (fuel is linear in the length); the C++ recursion depth '
+    '(up to 1000) is validated by the depth-1000 cases only. The comment clause is proved at the tokenizer (every token is read through '
+    'readToken), not as a statement about whole documents; the processing-instruction clause for bodies without ?, CR, LF. '
+    'In-place writes of a nested content item redirect slots only (a content list of another block pointing to it is excluded by the proved '
+    'count invariant). Element.line/column of elements created by toElement() are uninitialised in the code and not compared.')
+C16.rule = (
+    'cases = one parse of a generated / mutated / exhaustively enumerated document, or a tree built by open/attr/text/close then serialised and '
+    're-parsed, or a history of Variant handle operations with dumps, or one entity reference; generators aim at the case splits of the proofs: '
+    'comments between all tokens and next to text, all three line-break forms, processing instructions, numeric references at the UTF-8 and '
+    '32/64-bit boundaries, quotes/ampersands/line breaks in values, texts whose first byte starts another token (look-ahead fails), nesting '
+    'depth 1000, NUL inside the buffer, every byte string of length <= 3 (4 thorough) over a 15-letter alphabet bare and in 5 contexts, and for '
+    'handles every combination of block kind x sharing shape x write. Non-trivial: a parse that succeeds, or fails beyond line 1 column 1 on a '
+    'document of >= 8 bytes; a round trip of a tree with >= 3 nodes/attributes; a handle history that both shares (copy/assign/child/sub) and '
+    'writes (name/attr/submut/settext/child); an entity case that parses. distinct = distinct op text.')
+C16.assumptions = [
+    'scanf("#%u") behaves as the reference decimal scanner scan_u of XmlModel.v (validated by correspondence on 300 spellings x boundary values)',
+    'Unicode::toString is the UTF-8 encoder utf8 of XmlModel.v (validated by correspondence; proved correct in C18)',
+    'HashMap<String,String> iterates in insertion order and append replaces the value of an equal key (validated by correspondence)',
+    'the text contains its terminator: Xml::parse is given a NUL-terminated buffer',
+]
 CHECK = C16
